@@ -224,6 +224,23 @@ Theorem C12_kde_wrapper_purges :
 Proof. exact good2_select_finite. Qed.
 Print Assumptions C12_kde_wrapper_purges.
 
+(* the values of the estimator are placed on the jointly finite positions in
+   order, every other position is NaN *)
+Theorem C12_kde_wrapper_places :
+  forall (D : Type) (dnan : D) (good : list bool) (dens : list D),
+    length dens = length (select good good) ->
+    select good (place D dnan good dens) = dens /\
+    length (place D dnan good dens) = length good /\
+    forall i : nat, (i < length good)%nat -> nth i good true = false ->
+                    nth i (place D dnan good dens) dnan = dnan.
+Proof.
+  exact (fun D dnan good dens H =>
+           conj (place_select D dnan good dens H)
+                (conj (place_length D dnan good dens)
+                      (place_bad D dnan good dens))).
+Qed.
+Print Assumptions C12_kde_wrapper_places.
+
 Theorem C12_kde_wrapper_noninterference :
   forall (D : Type) (dnan : D) (K : Type)
          (core : K -> list fv -> list fv -> list fv -> list fv -> list D)
@@ -370,3 +387,28 @@ Theorem C12_disabled_uses_all :
     tsv_columns true fall [xs; ys] = [xs; ys].
 Proof. exact disabled_uses_all. Qed.
 Print Assumptions C12_disabled_uses_all.
+
+(* ---- kde_multivariate: the positions handed to the estimator --------------- *)
+
+(* with the proposed fix (np.column_stack) the estimator is evaluated at
+   exactly the points (x_j, y_j), for every number of positions *)
+Theorem C12_multivariate_positions :
+  forall xo yo : list Z, length xo = length yo ->
+    mv_points xo yo = Some (point_rows xo yo).
+Proof. exact mv_points_correct. Qed.
+Print Assumptions C12_multivariate_positions.
+
+(* the code before the fix (np.vstack, shape (2,N)): statsmodels'
+   _adjust_shape does not transpose a 2x2 array - finding
+   C12-multivariate-two-positions *)
+Theorem C12_multivariate_positions_vstack_refuted :
+  exists xo yo, length xo = length yo /\
+                mv_points_vstack xo yo <> Some (point_rows xo yo).
+Proof. exact mv_points_vstack_refuted. Qed.
+Print Assumptions C12_multivariate_positions_vstack_refuted.
+
+Theorem C12_multivariate_positions_vstack_partial :
+  forall xo yo : list Z, length xo = length yo -> zlen xo <> 2 ->
+    mv_points_vstack xo yo = Some (point_rows xo yo).
+Proof. exact mv_points_vstack_partial. Qed.
+Print Assumptions C12_multivariate_positions_vstack_partial.
